@@ -221,7 +221,21 @@ func runSynth(c *harness.Ctx) harness.Result {
 		l = genLayout(r)
 	}
 	path := filepath.Join(c.Tmp, "syn.so")
-	if err := writeELF(path, l.typ, l.phs, l.secs...); err != nil {
+	written := l.phs
+	debugOnly := r.Intn(10) == 0
+	if debugOnly {
+		// the separate debug file of the object (objcopy --only-keep-debug, eu-strip -f): same
+		// headers, but the segments have no file content any more. pprof may refuse such a file for
+		// the mapping; it may not translate through a segment the address was not loaded from.
+		written = append([]elf.Prog64(nil), l.phs...)
+		for i := range written {
+			written[i].Filesz = 0
+		}
+		l.aliased = true
+		l.desc += " debug-only copy (segments without file content)"
+		c.Stat("debug_only_files", 1)
+	}
+	if err := writeELF(path, l.typ, written, l.secs...); err != nil {
 		return harness.Result{Verdict: harness.Inconclusive, Detail: err.Error()}
 	}
 	bias := uint64(0)
@@ -291,6 +305,10 @@ func runSynth(c *harness.Ctx) harness.Result {
 				continue
 			}
 			f, err := bu.Open(path, m.start, m.limit, m.off, "")
+			if err != nil && debugOnly {
+				c.Stat("errors_in_ambiguous_class", 1)
+				continue
+			}
 			if err != nil {
 				return harness.Violation("Open failed for a well-formed ELF: %v\n%s\nmapping %x-%x@%x", err, l, m.start, m.limit, m.off)
 			}
